@@ -16,6 +16,7 @@ from biodivine_aeon import (
 from biobalm.symbolic_utils import state_list_to_bdd
 from biobalm.space_utils import is_subspace, intersect
 from biobalm.types import BooleanSpace
+from biobalm import _verif_hooks
 import biodivine_aeon
 import copy
 
@@ -324,6 +325,20 @@ def symbolic_attractor_test(
     while not all_done:
         all_done = True
 
+        if _verif_hooks.ENABLED:
+            _verif_hooks.emit(
+                "attractor_test_iteration",
+                node_id=node_id,
+                graph=graph,
+                pivot=pivot,
+                reach=reach_set,
+                avoid=avoid,
+                saturated=list(saturated_vars),
+                conflict=list(conflict_vars),
+                other=list(other_vars),
+                force_forward=force_forward,
+            )
+
         # Saturate reach_set with currently selected variables, but only if
         # it's symbolic size is smaller than that of the avoid set (reach set
         # tends to grow quite large and we'd like to avoid that).
@@ -460,6 +475,16 @@ def symbolic_attractor_test(
 
     if sd.config["debug"]:
         print(f"[{node_id}] > Reachability completed with {reach_set}.")
+
+    if _verif_hooks.ENABLED:
+        _verif_hooks.emit(
+            "attractor_test_done",
+            node_id=node_id,
+            graph=graph,
+            pivot=pivot,
+            reach=reach_set,
+            avoid=avoid,
+        )
 
     return reach_set
 
